@@ -30,7 +30,7 @@ func init() {
 			var out []Child
 			n := 16
 			for i := 0; i < n; i++ {
-				out = append(out, Child{Flavour: "plain", NCPU: []int{1, 2, 3, 1}[i%4], Shard: i, NShards: n})
+				out = append(out, Child{Flavour: "plain", NCPU: []int{1, 2, 3, 5, 1, 2, 4, 7}[i%8], Shard: i, NShards: n})
 			}
 			return out
 		},
@@ -149,7 +149,17 @@ var c05digitNames = []string{"0", "1", "half-1", "half", "half+1", "max", "rando
 
 func c05special(rng *rand.Rand) (*big.Int, string) {
 	r := ref.R
-	switch rng.Intn(9) {
+	switch rng.Intn(11) {
+	case 9:
+		// Montgomery representation is the small integer k
+		k := int64(1 + rng.Intn(1<<16))
+		if rng.Intn(3) == 0 {
+			k = []int64{1, 127, 128, 129, 32767, 32768, 32769}[rng.Intn(7)]
+		}
+		return new(big.Int).Mod(new(big.Int).Mul(big.NewInt(k), rInvFr), r), "montgomery-small"
+	case 10:
+		es := edgeScalars()
+		return new(big.Int).Set(es[rng.Intn(len(es))]), "edge"
 	case 0:
 		return new(big.Int).Sub(r, bigOne), "r-1"
 	case 1:
@@ -380,7 +390,7 @@ func runC05(c *mon.Ctx) {
 		})
 	}
 	// ---- special scalars at every position, dense and short vectors ----
-	nd := c.Pick(32, 1000)
+	nd := c.Pick(96, 1600)
 	for b := 0; b < nd; b++ {
 		if !c.Mine(b) {
 			continue
@@ -407,22 +417,24 @@ func runC05(c *mon.Ctx) {
 				}
 				c05check(c, env, v, fmt.Sprintf("special|w=%d|%s", w, name), false, rng)
 			}
-			// dense / short
-			lens := []int{0, 1, 5, 6, 255, 256, 2, 4, 7, 128}
-			n := lens[b%len(lens)]
-			v := make([]*big.Int, n)
-			kind := rng.Intn(3)
-			for i := range v {
-				switch kind {
-				case 0:
-					v[i] = randBig(rng, ref.R)
-				case 1:
-					v[i], _ = c05special(rng)
-				default:
-					v[i] = randScalar(rng)
+			// dense / short vectors: every length class in every child (the children differ in NumCPU)
+			lens := []int{0, 1, 2, 4, 5, 6, 7, 63, 64, 65, 100, 127, 128, 129, 200, 250, 255, 256}
+			for li := 0; li < 3; li++ {
+				n := lens[(b*3+li+c.Shard)%len(lens)]
+				v := make([]*big.Int, n)
+				kind := rng.Intn(3)
+				for i := range v {
+					switch kind {
+					case 0:
+						v[i] = randBig(rng, ref.R)
+					case 1:
+						v[i], _ = c05special(rng)
+					default:
+						v[i] = randScalar(rng)
+					}
 				}
+				c05check(c, env, v, fmt.Sprintf("dense|len=%d|kind%d|ncpu=%d", n, kind, runtime.NumCPU()), li == 0, rng)
 			}
-			c05check(c, env, v, fmt.Sprintf("dense|len=%d|kind%d|ncpu=%d", n, kind, runtime.NumCPU()), true, rng)
 			// linearity on two sparse-ish vectors
 			a := make([]*big.Int, 256)
 			bb := make([]*big.Int, 256)
